@@ -287,9 +287,17 @@ __dnf(dexpr_t root)
 /* recursive __dnf'er */
 	switch (root->type) {
 	case DEX_CONJ: {
+		dex_type_t rlt;
+		dex_type_t rrt;
+
+		/* get the children into shape first, a conjunction among
+		 * them may well come back as a disjunction */
+		__dnf(root->left);
+		__dnf(root->right);
+
 		/* check if one of the children is a disjunction */
-		dex_type_t rlt = root->left->type;
-		dex_type_t rrt = root->right->type;
+		rlt = root->left->type;
+		rrt = root->right->type;
 
 		if (rlt == DEX_DISJ && rrt == DEX_DISJ) {
 			/* complexestest case
@@ -357,8 +365,12 @@ __dnf(dexpr_t root)
 			root->right->type = DEX_CONJ;
 			root->right->left = dexpr_copy_j(a);
 			root->right->right = c;
+		} else {
+			/* a conjunction of non-disjunctions stays what it is,
+			 * the fix-ups below are for disjunctions only */
+			break;
 		}
-		/* fallthrough! */
+		/* fallthrough! ROOT is a disjunction now */
 	}
 	case DEX_DISJ:
 		/* nothing to be done other than a quick descent */
